@@ -173,6 +173,9 @@ func c01BigCase(rows int) c01Case {
 				{L: model.Operand{Col: "a"}, Op: ">=", R: model.Operand{Lit: &lo}}, {L: model.Operand{Col: "a"}, Op: "<", R: model.Operand{Lit: &hi}}}}}})
 		}
 	}
+	// a delete whose matches are spread over every leaf of the (now three-level) tree
+	three := model.Str("v3")
+	mk(model.Stmt{Kind: "delete", Table: "big", Where: &model.Cond{Or: [][]model.Cmp{{{L: model.Operand{Col: "s"}, Op: "=", R: model.Operand{Lit: &three}}}}}})
 	five := model.Str("v5")
 	mk(model.Stmt{Kind: "update", Table: "big", Set: []model.Assign{{Col: "s", Val: model.Str("upd")}},
 		Where: &model.Cond{Or: [][]model.Cmp{{{L: model.Operand{Col: "s"}, Op: "=", R: model.Operand{Lit: &five}}}}}})
